@@ -915,6 +915,7 @@ func C34(c *Ctx) {
 		beforeOK(c, r1, fn, "maybeThrottleWrite", Named("NoKV.(*DB).maybeThrottleWrite"), "batchSet|sendToWriteCh", Named("NoKV.(*DB).batchSet", "NoKV.(*DB).sendToWriteCh"), 1)
 	}
 	entryRefOwnershipGroup(c, "K13.entry-ref-ownership")
+	gcReinsertAtomicGroup(c, "K4.gc-reinsert-atomic-with-check")
 	if fn := c.Fn("", "DB.sendToWriteCh"); fn != nil {
 		for _, e := range need(c, r1, fn, false, "enqueueCommitRequest", Named("NoKV.(*DB).enqueueCommitRequest"), 1) {
 			sentinelGuards(c, r1, fn, "ErrTxnTooBig", e.(ssa.Instruction), "enqueueCommitRequest", 2)
